@@ -195,9 +195,15 @@ fn exact_of(kind: u8, seg: &[Cp], osu: bool) -> Exact {
                         class: if huge { "D14" } else { "" },
                     }
                 }
-                _ => {
+                other => {
                     let mut e = bez(&c);
                     e.kind = "perfect-collinear->bezier";
+                    // exactly collinear points (infinite radius) whose determinant, rounded in f32,
+                    // is not within f32::EPSILON of 0: the code does not fall back -- D14 as well
+                    if other.is_none() && det32 > f32::EPSILON {
+                        e.kind = "perfect-collinear(f32 det nonzero)";
+                        e.class = "D14";
+                    }
                     e
                 }
             }
@@ -409,6 +415,10 @@ pub fn generate(tier: &str, seed: u64, out: &mut Out) {
         // near-collinear, huge radius
         vec![z(-4096.0, 0.0, 4), z(0.0, 2.5, 0), z(4096.0, 0.0, 0)],
         vec![z(-4096.0, 0.0, 4), z(0.0, 0.25, 0), z(4096.0, 0.0, 0)],
+        // D14: exactly collinear as f32 values but a non-zero f32 determinant; vertex 700 px off; NaN vertex
+        vec![z(-141.525, -227.33333, 4), z(-166.24374, -138.25, 0), z(-67.368744, -494.5833, 0)],
+        vec![z(717.0, 307.0, 4), z(585.0, -6966.999, 0), z(684.0, -1511.5, 0)],
+        vec![z(-164.325, 621.3334, 4), z(-224.025, -27.333334, 0), z(-209.09999, 134.83334, 0)],
         // joint produced identically by two segments
         vec![z(0.0, 0.0, 3), z(10.0, 0.0, 2), z(10.0, 10.0, 0), z(20.0, 15.0, 3), z(30.0, 15.0, 0)],
         // Catmull with repeated points
